@@ -82,11 +82,13 @@ META("C01",
           "symbolic inputs: buffers are exactly-sized heap objects of symbolic length, so any read outside the caller's buffer "
           "fails a pointer obligation; loops are closed by loop contracts with decreases clauses (termination).",
      note=COMMON_NOTE + "All 24 builder callbacks and every case of _cbor_builder_append are proved per transition (safety, "
-          "CBOR_ASSERTs, frames for the non-array cases). The two loops of cbor_load are NOT closed: goto-instrument runs out of "
-          "memory on any loop contract for cbor_load, and the bounded stand-in (3 heads) did not finish; only the empty-input "
-          "path of cbor_load is proved. The whole-input statement is therefore: every head-level step and every post-decode "
-          "operation per node is safe; their composition over an input is a meta-argument (A2).",
-     trusted=[A1, A2], uncovered=["cbor_load's main and clean-up loops (composition of the proved per-head steps): meta-argument A2",
+          "CBOR_ASSERTs, frames for the non-array cases). cbor_load: goto-instrument runs out of memory on any loop contract for "
+          "it, so its text is verified as six verbatim regions wrapped mechanically into functions on every run "
+          "(vlib/extract.py: prologue, loop body, exit, error entry, clean-up loop body, error exit; only the two loop constructs "
+          "and the static table are dropped) with the decoder represented by the assumed contract K''. The whole-input "
+          "statement is therefore: every head-level step and every post-decode operation per node is safe; their composition "
+          "over an input is the loop rule, a meta-argument (A2).",
+     trusted=[A1, A2], uncovered=["composition of cbor_load's proved regions over the two loops: loop rule, meta-argument A2; K'' assumed",
                                   "cbor_describe: not under contract", "cbor_copy of arrays / maps / chunked strings"],
      meta=["tree-level statements by induction over per-node steps (A1)"])
 
@@ -102,11 +104,13 @@ META("C02",
           "_cbor_builder_append for every kind of open item: root when nothing is open, definite countdown and storage order for "
           "arrays, key/value parity for maps, one child for tags, syntax error inside chunked strings, closing hands the "
           "complete container upwards (recursion through the induction-hypothesis twin); (4) the stack limit (C19).",
-     note=COMMON_NOTE + "Composition over the sequence of heads (cbor_load's loop) is a meta-argument (A2): the loop itself is not "
-          "closed (tool limit, see C01). In the array/map cases of _cbor_builder_append the transition facts are asserted on the "
+     note=COMMON_NOTE + "cbor_load itself is verified as verbatim regions extracted mechanically on every run (loop body: one decoder "
+          "call on exactly the unread remainder, success only when the stack is empty after a head, the root returned); the "
+          "composition over the sequence of heads is the loop rule, a meta-argument (A2), with the decoder+table represented by "
+          "the assumed contract K''; the table's content is a static fact (static_callback_table). In the array/map cases of _cbor_builder_append the transition facts are asserted on the "
           "real function but its frame contract is not enforced (memory). Leaf/opener callbacks are run with a tag or nothing "
           "open (they never look at the open item).",
-     trusted=[A1, A2], uncovered=["cbor_load loop composition: meta-argument over the proved transitions"],
+     trusted=[A1, A2], uncovered=["cbor_load loop composition: loop rule over the proved regions and transitions (meta-argument A2, K'' assumed)"],
      meta=["composition over the sequence of heads (A2)"])
 
 META("C03",
@@ -139,9 +143,14 @@ META("C05",
           "(a shorter buffer never turns FINISHED into ERROR) is a lemma over that contract.",
      note=COMMON_NOTE + "Flag exactness is proved per callback (creation_failed only after a refused request, a refusing size guard or "
           "at the nesting limit; syntax_error exactly at a break that closes nothing and at a non-chunk completing inside a "
-          "chunked string; rejected items are released). The status->error-code mapping and position bookkeeping inside "
-          "cbor_load's loop are NOT machine-checked for non-empty inputs (loop not closed, see C01).",
-     trusted=[A2], uncovered=["cbor_load loop: code mapping / position for non-empty inputs (meta-argument over K' = C08 contract + callback transitions)"],
+          "chunked string; rejected items are released). cbor_load's own text is proved as verbatim regions extracted on every "
+          "run (vlib/extract.py): prologue (empty input: NODATA, every field written; else invariant established), loop body "
+          "(exact cause -> code mapping in the order status, creation_failed, syntax_error; NOTENOUGHDATA without a decoder call "
+          "when the input is exhausted with an item open; read advanced by exactly the decoder's count; progress), error entry "
+          "(position = read), clean-up body (one decref + one frame freed per level), exits. The decoder with the builder "
+          "table is the assumed contract K''. A failed obligation in this layer is replayed by a native sweep of the real "
+          "cbor_load against an RFC 8949 reference (2.6 million short inputs + nesting towers + refused allocations).",
+     trusted=[A2], uncovered=["loop rule over the proved regions of cbor_load (A2); K'' (decoder contract composed with the callback transitions) assumed"],
      meta=["composition over heads (A2)"])
 
 META("C06",
@@ -219,9 +228,12 @@ META("C14",
      text="Independence lemma over the C08 contract: for two different buffers that agree on the bytes a FINISHED result reports as read, "
           "the second call gives the identical result and event whatever follows; prefix lemma: an event is determined by the bytes it "
           "reports as read.",
-     note=COMMON_NOTE + "cbor_load's loop facts (decoder only called at offset read; loop exits when the stack empties) are not yet under "
-          "contract; the sequence-splitting statement is an induction over items (A2).",
-     trusted=[A2], uncovered=["cbor_load loop exit / read accumulation"], meta=["induction over items (A2)"])
+     note=COMMON_NOTE + "cbor_load's loop facts are proved on its extracted loop body (load_iteration: one decoder call on exactly "
+          "source+read with the remaining length, read advanced by exactly the decoder's count, nothing beyond the consumed bytes "
+          "is looked at by cbor_load itself; load_exit: the root is returned when the stack empties). That the callbacks do not "
+          "look beyond their arguments is their frame (cb_* proofs take the payload in an exactly-sized buffer). The "
+          "sequence-splitting statement is an induction over items (A2).",
+     trusted=[A2], uncovered=["loop rule for cbor_load (A2), K'' assumed"], meta=["induction over items (A2)"])
 
 META("C15",
      text="Bit-precise (CBMC float-bv), all patterns symbolic: every one of the 65536 half patterns decodes (real _cbor_load_half) to "
@@ -264,9 +276,11 @@ META("C19",
           "pushed or the allocator's refusal reported; size <= L preserved.",
      note=COMMON_NOTE + "Every opener callback (7) is proved to push exactly one frame or raise creation_failed leaving nothing behind, and "
           "to raise it when the stack is at the limit (those proofs use the default L = 2048; the push itself is proved for "
-          "symbolic L). cbor_load's mapping of the flag to MEMERROR at the position just past the head is not machine-checked "
-          "(loop not closed). 'Within native stack proportional to L' is not decidable by this technique.",
-     trusted=[A2], uncovered=["native stack consumption: not decidable here", "flag -> MEMERROR mapping in cbor_load's loop"], meta=[])
+          "symbolic L). cbor_load's mapping of the flag to MEMERROR positioned just past the head is proved on the extracted loop body "
+          "(load_iteration). 'Within native stack proportional to L' is not decidable by contracts; the supporting static fact "
+          "checked instead: every function on a call-graph cycle has a compile-time-constant frame (clang -fstack-usage), so "
+          "stack use is (constant per level) x (depth); that each recursive call descends one nesting level is A1.",
+     trusted=[A1, A2], uncovered=["native stack consumption in bytes: only the constant-frame fact is checked; recursion depth = nesting depth is argued (A1)"], meta=[])
 
 # ------------------------------------------------------------------------------------------------
 # L0 arithmetic (C20)
